@@ -386,6 +386,12 @@ func TestIteratorProtocol(t *testing.T) {
 				st.k = rapid.IntRange(1, 4).Draw(t, "k")
 				stmt = fmt.Sprintf("%s := %s.new(%s, k: %d)", nm, src, ipos, st.k)
 			}
+			if m.body.KwOnly && rapid.IntRange(0, 2).Draw(t, "bare new") == 0 {
+				// `new` without any argument: every parameter takes its default, whatever progress the source has made
+				st = &state{i: 0, k: m.body.K0}
+				stmt = fmt.Sprintf("%s := %s.new", nm, src)
+				vt.Class("action new without arguments")
+			}
 			m.exec(t, stmt)
 			m.names = append(m.names, nm)
 			m.models[nm] = st
